@@ -39,7 +39,14 @@ def static_of(fn, op):
     return ""
 
 
+ORDERINGS = {0: "Relaxed", 1: "Release", 2: "Acquire", 3: "AcqRel", 4: "SeqCst"}    # core::sync::atomic::Ordering, declaration order
+
+
 def ordering_of(fn, op):
+    st = fn.origin(op)
+    if st and st[-1][0] == "const" and (st[-1][1].get("ty") or "").endswith("atomic::Ordering") and st[-1][1].get("v") is not None:
+        # a named constant (`const DONE: Ordering = Ordering::Release`) is dumped evaluated, as the discriminant
+        return ORDERINGS.get(int(st[-1][1]["v"]), "?")
     return decision.describe_deep(fn, op, 1).split("{")[0]
 
 
@@ -113,6 +120,7 @@ def c18a(ck, prog):
 def c18b(ck, prog):
     R = "C18-b ORDER sessions"
     howl = prog.coroutine_body(prog.method(r"^ohkami::ohkami::Ohkami$", "howl").key)
+    howl = prog.inlined(howl, 1, r"WaitGroup>?::add$")       # the per-connection step may be a local helper
     add = howl.calls_to(r"sync::(_::)?<impl ohkami::ohkami::sync::WaitGroup>::add$|WaitGroup>?::add$")
     spawn = howl.calls_to(r"::spawn$|spawn_local$|::detach$")
     spawn = [c for c in spawn if not re.search(r"^core::|^alloc::", c.callee or "")]
@@ -184,6 +192,9 @@ def c18b(ck, prog):
                     sides = [guards.describe_origin(pollf, fa.lhs), guards.describe_origin(pollf, fa.rhs)]
                     if any("load" in s for s in sides) and any(s == "const 0" for s in sides):
                         hit = True
+                # `match load { 0 => Ready, _ => Pending }`
+                if fa.kind == "int" and fa.values is not None and set(fa.values) == {0} and "load" in guards.describe_origin(pollf, fa.steps):
+                    hit = True
             ok = ok and hit
     ck.ob(R, "WaitGroup::poll", ok, pollf.loc(None), "" if ok else "WaitGroup::poll can be Ready without having loaded a zero count (Acquire)", how="Ready only under load(Acquire) == 0")
     pends = [bb for bb, kind, _ in paths.ret_sites(pollf) if kind == "Pending"]
